@@ -71,8 +71,13 @@ def task_group_charge(pr, repo):
             ph, ph2 = R('ph'), R('ph2')
             ctx.assume(q != 0)
             p = pkm if state == 'unfolded' else pk
-            c1 = ex.call_function(fi, [None], {'ph': ph, 'state': state}, self_obj=g)
-            c2 = ex.call_function(fi, [None], {'ph': ph2, 'state': state}, self_obj=g)
+            # the parameter set every caller hands over: its generic per-residue model pKa is NOT the group's own model pKa
+            # (custom per-atom values, e.g. nucleic-acid atoms and user files, override it in Group.setup)
+            g.attrs.setdefault('residue_type', 'ASP')
+            P_ = record('P', None, model_pkas={'ASP': R('generic_model_pka'), 'GLU': R('generic_glu')},
+                        charge={'ASP': R('generic_charge')})
+            c1 = ex.call_function(fi, [P_], {'ph': ph, 'state': state}, self_obj=g)
+            c2 = ex.call_function(fi, [P_], {'ph': ph2, 'state': state}, self_obj=g)
             e1 = ctx.exp10(q * (p - ph))
             meta = {'replay': replay_gc}
             ctx.oblige('calculate_charge[%s] == q*E/(1+E), E = 10^(q*(pK-pH)) with pK = %s' %
@@ -404,7 +409,9 @@ def bounded(pr):
             pf0, pu0 = mol.get_pi('AVR', grid=(0.0, 14.0), precision=1e-6)
             mid = (pf0 + pu0) / 2.0
             between = [((mid - 3.0, mid + 3.0), 1e-4), ((mid - 0.8, mid + 0.8), 1e-4)] if abs(pf0 - pu0) > 1e-3 else []
-            for window, prec in [((0.0, 14.0), 1e-4), ((2.0, 12.0), 1e-2), ((0.0, 14.0), 1e-10), ((-10.0, 30.0), 1e-9)] + between:
+            # precisions that are not powers of ten too
+            odd = [((0.0, 14.0), 0.003), ((0.0, 14.0), 0.025), ((1.0, 13.0), 0.05), ((0.0, 14.0), 0.0007)]
+            for window, prec in [((0.0, 14.0), 1e-4), ((2.0, 12.0), 1e-2), ((0.0, 14.0), 1e-10), ((-10.0, 30.0), 1e-9)] + odd + between:
                 ev += 1
                 pif, piu = mol.get_pi('AVR', grid=window, precision=prec)
                 for x, folded, nm in ((pif, True, 'folded'), (piu, False, 'unfolded')):
